@@ -1,12 +1,85 @@
 /-
-  Oracle commands for C19 (stub: owns no commands yet).
+  Oracle commands for C19 (chatPrompt):
+    chat <fixed 0|1> <mllama 0|1> <proj 0|1|2> <limit> <style> <tokmode>
+         <L> {<role s|u|a|t|o> <contenthex> <nimgs> {<src> <ok 0|1>}*}*
+         <ncosts> <cost>*
+      cost[i] (0 ≤ i < L-1) = tokens of the REAL template+tokenizer on system(i) ++ msgs[i:]
+      (what the loop would measure at iteration i); the model's loop uses this vector.
+      style 0/1/2/3 = the harness templates, which the oracle also renders itself
+      (prompt string, and a cross-check of the cost vector); style ≥ 4 = a template the oracle
+      does not know (prompt reported as `?`).
+      -> panic:empty | err:too-many-images | err:preprocess
+       | ok q=<tokenizer calls> imgs=<id:src:pre,…|-> msgs=<hex;…> prompt=<hex|?> costs=<ok|BAD@i|?>
+         (msgs = contents of ALL messages after the call: chatPrompt rewrites msgs[n:] in place)
 -/
+import OllamaVerif.Model.Prompt
 import Oracle.Util
 namespace Oracle.C19
-open Oracle
+open OllamaVerif OllamaVerif.Prompt Oracle
+
+def pRole : TP Role := do
+  let t ← tok
+  match t with
+  | "s" => pure .system
+  | "u" => pure .user
+  | "a" => pure .assistant
+  | "t" => pure .tool
+  | "o" => pure .other
+  | _ => failure
+
+def pImg : TP Img := do
+  let src ← nat
+  let ok ← nat
+  pure ⟨src, ok != 0⟩
+
+def pMsg : TP Msg := do
+  let r ← pRole
+  let c ← hex
+  let imgs ← listOf pImg
+  pure ⟨r, splitImg c, imgs⟩
+
+def showImgs (l : List ImgOut) : String :=
+  if l.isEmpty then "-" else
+    joinWith "," (l.map fun o => s!"{o.id}:{o.src}:{if o.pre then 1 else 0}")
+
+def firstBad (given mine : List Nat) (i : Nat) : Option Nat :=
+  match given, mine with
+  | [], [] => none
+  | g :: gs, m :: ms => if g = m then firstBad gs ms (i+1) else some i
+  | _, _ => some i
 
 def handle (toks : List String) : Option String :=
   match toks with
+  | "chat" :: rest =>
+    runTP (do
+      let fixed ← nat
+      let mllama ← nat
+      let proj ← nat
+      let limit ← int
+      let style ← nat
+      let mode ← nat
+      let msgs ← listOf pMsg
+      let costs ← listOf nat
+      let cfg : Cfg := ⟨fixed != 0, mllama != 0, proj, limit⟩
+      let cost : Nat → Nat := fun i => costs.getD i 0
+      let rend : List Msg → Bytes := fun l => render style (l.map toRMsg)
+      pure (match chatPrompt cfg cost msgs with
+        | .panicEmpty => "panic:empty"
+        | .errTooMany => "err:too-many-images"
+        | .errPreprocess => "err:preprocess"
+        | .ok q n sys ret imgs =>
+          let all := msgs.take n ++ ret
+          let ms := joinWith ";" (all.map fun m => hexOrDash (renderPieces m.content))
+          let prompt := if style ≤ 3 then hexOrDash (rend (sys ++ ret)) else "?"
+          let chk :=
+            if style ≤ 3 then
+              let mine := (List.range (msgs.length - 1)).map
+                (costOfRender (fun l => tokenCount mode (rend l)) msgs)
+              match firstBad costs mine 0 with
+              | none => "ok"
+              | some i => s!"BAD@{i}"
+            else "?"
+          s!"ok q={q} imgs={showImgs imgs} msgs={ms} prompt={prompt} costs={chk}")) rest
   | _ => none
 
 end Oracle.C19
